@@ -161,6 +161,15 @@ structure Graph where
   whose flows overlap an existing row of the instance without being equal to any (`true`, repaired); `false`: only
   when no row overlaps (code as found) -/
   dbRowPerFlowSet : Bool := false
+  /-- behaviour flag (probed from the live code; C28): `_load_historical_outputs`, rows overlap the proxy's flows but
+  none is of exactly its flows: fresh rows are queued `0` never, `1` always (ec8c5af), `2` unless the proxy is a finished
+  and complete instance; `dbRowPerFlowSet` above is kept for old recorded inputs and read as mode 1 -/
+  rowInsertMode : Nat := 0
+  /-- behaviour flags (probed from the live code; C28), `false` = code as first found: `queue_or_trigger` returns early
+  for a proxy already waiting on job preparation (6e65a44); `release_held_active_task` queues through `queue_if_ready`,
+  which leaves a manually triggered proxy alone (e8480f1) -/
+  qotSkipsPrepped : Bool := false
+  releaseQueueIfReady : Bool := false
   deriving Repr, Inhabited
 
 /-- number of instances + 2: bounds the `spawn_task` ↔ `spawn_on_all_outputs` recursion -/
@@ -526,6 +535,10 @@ def holdProxy (s : State) (x : Proxy) : State × Proxy :=
            else { s with tasksToHold := s.tasksToHold ++ [(x.name, x.pt)] }
   (s, x.reset (held := some true))
 
+/-- `TaskOutputs.is_complete` of a task by name (an unknown task counts as complete) -/
+def completeOf (g : Graph) (name : String) (done : List String) : Bool :=
+  match g.task? name with | some t => isComplete t done | none => true
+
 /-- `_load_db_task_proxy`: build the proxy and load its completed outputs from the `task_outputs` rows of
 its flows (queueing fresh rows if there are none) -/
 def loadDbTaskProxy (g : Graph) (s : State) (name : String) (p : Int) (flows : List Nat)
@@ -540,8 +553,13 @@ def loadDbTaskProxy (g : Graph) (s : State) (name : String) (p : Int) (flows : L
       let seen := info.filter fun e => !(interF flows e.2).isEmpty
       let x := seen.foldl (fun (y : Proxy) e =>
           e.1.foldl (fun (z : Proxy) m => if z.done.contains m then z else { z with done := z.done ++ [m] }) y) x
-      if seen.isEmpty || (g.dbRowPerFlowSet && !(info.any fun e => e.2 == flows)) then (dbAddNewFlowRows s x, some x)
-      else (s, some x)
+      -- no row of exactly these flows (`itask.flow_nums not in info.values()`)
+      let noExact := !(info.any fun e => e.2 == flows)
+      let extra := match (if g.dbRowPerFlowSet then 1 else g.rowInsertMode) with
+        | 0 => false
+        | 1 => noExact
+        | _ => noExact && !(status.isFinal && completeOf g name x.done)
+      if seen.isEmpty || extra then (dbAddNewFlowRows s x, some x) else (s, some x)
 
 /-- children of an output of an instance (`graph_children`) -/
 def childrenOfInst (g : Graph) (name : String) (p : Int) (out : String) : List Child :=
@@ -592,10 +610,6 @@ def spawnFinish (g : Graph) (s : State) (x : Proxy) (name : String) (p : Int) (i
   let r := holdOnSpawn s x name p
   let x := absSatisfy g r.1 r.2 name
   (if isNew then dbAddNewFlowRows r.1 x else r.1, some x)
-
-/-- `TaskOutputs.is_complete` of a task by name (an unknown task counts as complete) -/
-def completeOf (g : Graph) (name : String) (done : List String) : Bool :=
-  match g.task? name with | some t => isComplete t done | none => true
 
 /-- is the status found in the DB history a final one -/
 def finalOf (prev : Option Status) : Bool :=
@@ -736,11 +750,12 @@ def holdActive (s : State) (x : Proxy) : State :=
   else { s with tasksToHold := s.tasksToHold ++ [(x.name, x.pt)] }
 
 /-- `release_held_active_task` on a pooled proxy -/
-def releaseHeldActive (s : State) (x : Proxy) : State :=
+def releaseHeldActive (s : State) (x : Proxy) (qir : Bool := false) : State :=
   let s :=
     if x.held then
       let y := x.reset (held := some false)
-      let y := if !y.runahead && y.isReadyToRun then y.reset (queued := some true) else y
+      -- (`qir`: through `queue_if_ready`, which leaves a manually triggered proxy alone)
+      let y := if !y.runahead && y.isReadyToRun && !(qir && y.manual) then y.reset (queued := some true) else y
       s.put y
     else s
   { s with tasksToHold := s.tasksToHold.filter (· != (x.name, x.pt)) }
@@ -789,7 +804,7 @@ def releaseAndSubmit (s : State) : State :=
 
 /-- `remove` -/
 def remove (g : Graph) (s : State) (x : Proxy) : State :=
-  let s := releaseHeldActive s x
+  let s := releaseHeldActive s x g.releaseQueueIfReady
   let x := (s.get? x.pt x.name).getD x
   let s := if !x.flows.isEmpty && x.runahead then spawnNextParentless g s x else s
   if (s.get? x.pt x.name).isNone then s else
@@ -1158,18 +1173,18 @@ def holdTasks (s : State) (ids : List (Int × String)) : State :=
               else { st with tasksToHold := st.tasksToHold ++ [(k.2, k.1)] }) s
 
 /-- `release_held_tasks`: only ids currently in `tasks_to_hold` are matched -/
-def releaseTasks (s : State) (ids : List (Int × String)) : State :=
+def releaseTasks (s : State) (ids : List (Int × String)) (qir : Bool := false) : State :=
   ids.foldl (fun st k =>
     if !st.tasksToHold.contains (k.2, k.1) then st else
     match st.get? k.1 k.2 with
-    | some y => releaseHeldActive st y
+    | some y => releaseHeldActive st y qir
     | none => { st with tasksToHold := st.tasksToHold.filter (· != (k.2, k.1)) }) s
 
 /-- `release_hold_point` -/
-def releaseHoldPoint (s : State) : State :=
+def releaseHoldPoint (s : State) (qir : Bool := false) : State :=
   let s := { s with holdPoint := none }
   let s := s.pool.foldl (fun st x => match st.get? x.pt x.name with
-    | some y => releaseHeldActive st y | none => st) s
+    | some y => releaseHeldActive st y qir | none => st) s
   { s with tasksToHold := [] }
 
 /-- clean restart from the database written at shutdown (`load_db_task_pool_for_restart`, `configure`) -/
@@ -1254,6 +1269,10 @@ def triggeredProxy (x : Proxy) : Proxy :=
 def queueOrTrigger (s : State) (x : Proxy) : State :=
   let s := s.put (triggeredProxy x)
   if s.toTrigger.contains (x.pt, x.name) then s else { s with toTrigger := s.toTrigger ++ [(x.pt, x.name)] }
+
+/-- `queue_or_trigger` with the early return for a proxy that is already waiting on job preparation (`skip`) -/
+def queueOrTriggerG (skip : Bool) (s : State) (x : Proxy) : State :=
+  if skip && x.wjp then s.put { x with manual := true } else queueOrTrigger s x
 
 def instOf (g : Graph) (k : Int × String) : Option InstDef := (g.task? k.2).bind (·.inst? k.1)
 
@@ -1408,7 +1427,7 @@ def trigActiveOne (g : Graph) (group : List (Int × String)) (flow : FlowSpec) (
       let x := { x with pre := x.pre.map Pre.setSatisfied, retryWait := false }
       let st := mergeFlows g (st.put x) x flowNums
       match st.get? k.1 k.2 with
-      | some x => (queueOrTrigger st x, toRemove, completed)
+      | some x => (queueOrTriggerG g.qotSkipsPrepped st x, toRemove, completed)
       | none => (st, toRemove, completed)
   | _, _ => acc
 
@@ -1446,7 +1465,7 @@ def respawnOne (g : Graph) (group : List (Int × String)) (completed : Completed
       if inFlow then st else
       if pooled then
         match st.get? k.1 k.2 with
-        | some y => queueOrTrigger st y
+        | some y => queueOrTriggerG g.qotSkipsPrepped st y
         | none => st
       else if !g.triggerUnpooled then st
       else
@@ -1471,7 +1490,7 @@ def forceTriggerGroup (g : Graph) (s : State) (group : List (Int × String)) (fl
     let s := removeMatched g s ids flowNums h.ch
     let s := { s with preStart := ids.foldl (fun acc k =>
         if k.1 < g.start && !acc.contains (k.2, k.1) then acc ++ [(k.2, k.1)] else acc) s.preStart }
-    dbFlush (releaseTasks s ids)
+    dbFlush (releaseTasks s ids g.releaseQueueIfReady)
   -- respawn the removed members with their off-group prerequisites satisfied; group-start ones are triggered
   let s := (orderBy h.sp (inactive ++ toRemove)).foldl (respawnOne g group completed flowNums wait) s
   (releaseRunahead g s).1
@@ -1529,9 +1548,9 @@ def step (g : Graph) (s : State) (op : Op) : State :=
       (processMessage g 4 s p n .internal sn (if ok then "submitted" else "submit-failed")).1
   | .msg p n sn text => { s with queue := s.queue ++ [⟨p, n, sn, text⟩] }
   | .hold ids => holdTasks s ids
-  | .release ids => releaseTasks s ids
+  | .release ids => releaseTasks s ids g.releaseQueueIfReady
   | .setHoldPoint p => setHoldPoint s p
-  | .releaseHoldPoint => releaseHoldPoint s
+  | .releaseHoldPoint => releaseHoldPoint s g.releaseQueueIfReady
   | .stop mode => { s with stopMode := some mode }
   | .stopPoint p => setStopPoint s p
   | .stopTask p n => { s with stopTask := some (p, n), stopTaskFinished := false }
